@@ -156,8 +156,14 @@ def chk_export(chk: Check):
 def record(data: bytes, rng, force_windows=False) -> dict:
     from han.fastframecheck import FastFrameCheckSequence16 as F
     f = F()
+    by = F()          # a second checker used between the calls: instances are independent
     steps = []
     for b in data:
+        try:
+            by.update(b ^ 0x5A)
+            F.compute_checksum(bytes([b, 0x7E, b ^ 0xFF]), 0, 3)
+        except Exception:  # noqa: BLE001
+            pass
         try:
             ret = f.update(b)
             steps.append({"ret": int(ret), "checksum": int(f.checksum), "good": bool(f.is_good)})
@@ -188,6 +194,23 @@ def record(data: bytes, rng, force_windows=False) -> dict:
             wins.append({"start": s, "length": ln, "ret": int(F.compute_checksum(data, s, ln))})
         except Exception:  # noqa: BLE001
             wins.append({"start": s, "length": ln, "ret": -1})
+    # the same windows through a caller-owned bytearray that held other content during an earlier call, and through a memoryview
+    if n:
+        buf = bytearray(bytes(b ^ 0xFF for b in data))
+        for s, ln in [c for c in cand if c is not None][:4]:
+            try:
+                F.compute_checksum(buf, s, ln)              # earlier call on the old content
+            except Exception:  # noqa: BLE001
+                pass
+        buf[:] = data
+        for k, c in enumerate([c for c in cand if c is not None][:6]):
+            s, ln = c
+            try:
+                wins.append({"start": s, "length": ln, "ret": int(F.compute_checksum(buf if k % 2 == 0 else memoryview(buf), s, ln))})
+            except TypeError:
+                pass            # the signature says bytes: refusing another buffer type is not a wrong checksum
+            except Exception:  # noqa: BLE001
+                wins.append({"start": s, "length": ln, "ret": -1})
     return {"id": stable_id("fcs", data.hex()), "canary": "", "data": list(data), "steps": steps, "windows": wins}
 
 
